@@ -14,6 +14,7 @@ import Rv.Lemmas.RingFlow
 import Rv.Lemmas.RingOrder
 import Rv.Lemmas.RingProgress
 import Rv.Lemmas.RingOneCond
+import Rv.Lemmas.RingWrap
 namespace Rv.C02
 open Rv.Ring Rv.Spec
 
@@ -26,6 +27,32 @@ theorem wraparound (k c : Nat) (hk : k ≤ 32) : (c % 2 ^ 32) % 2 ^ k = c % 2 ^ 
 
 /-- the slot index used by the model (and by the Go code) is the unbounded counter mod 2^k -/
 theorem slot_index (k c : Nat) (hk : k ≤ 32) : slotOf k c = c % 2 ^ k := slotOf_eq k c hk
+
+/-- Refinement "Go counters = model positions mod 2^32", made explicit: `wrap32 σ` is the state
+    with `write`, `read1`, `read2` reduced modulo 2^32 (what the uint32 fields hold). The wrap is
+    invisible: exactly the same transitions are enabled on the wrapped state, a step on the
+    wrapped state followed by wrapping equals wrapping after the step on unbounded positions,
+    hence a whole uint32 run is the image of the unbounded run (`run32` = `run` then `wrap32`) —
+    because the model (like ring.go) touches the counters only by `+1` and by the slot index
+    `counter mod 2^k`, never by an order comparison. -/
+theorem wrap_around_invisible (k : Nat) (l : Label) (ls : List Label) (σ : State) :
+    enabled k l (wrap32 σ) = enabled k l σ ∧
+    wrap32 (apply k l (wrap32 σ)) = wrap32 (apply k l σ) ∧
+    run32 k (wrap32 σ) ls = (run k σ ls).map wrap32 :=
+  ⟨enabled_wrap32 k l σ, apply_wrap32 k l σ, run_wrap32 k ls σ⟩
+
+/-- comparisons between counters are meaningful only as equalities on residues:
+    (1) within 2^32 commands of each other two positions are equal iff their residues are;
+    (2) the ORDER of residues is meaningless — one command queued across the wrap gives
+        `read1 < write` but `write mod 2^32 < read1 mod 2^32`;
+    (3) the equalities are sound emptiness tests: `read1 = write` implies the writer's next slot
+        is not filled, `read2 = write` implies the reader's next slot is not in flight. -/
+theorem counter_comparisons_on_residues (k : Nat) (hk : k ≤ 32) (σ : State) (h : Reachable k σ) :
+    (∀ a b : Nat, a ≤ b → b < a + 2 ^ 32 → (a % 2 ^ 32 = b % 2 ^ 32 ↔ a = b)) ∧
+    (∃ read1 write : Nat, read1 < write ∧ write = read1 + 1 ∧ write % 2 ^ 32 < read1 % 2 ^ 32) ∧
+    (σ.read1 = σ.write → (σ.slot (slotOf k (σ.read1 + 1))).mark ≠ 1) ∧
+    (σ.read2 = σ.write → (σ.slot (slotOf k (σ.read2 + 1))).mark ≠ 2) :=
+  ⟨residue_equality_exact, residue_order_meaningless, nothing_queued_of_eq hk h, nothing_in_flight_of_eq hk h⟩
 
 /-! ### Invariants of the ring -/
 
